@@ -52,6 +52,8 @@ func (c *Chan[T]) sync(s *sched.Sim) {
 		c.id = s.NewObjID()
 		c.buf = nil
 		c.hand = nil
+		c.taken = false
+		c.takenVC = nil
 		c.closed = false
 		c.recvW = 0
 		c.closeVC = nil
